@@ -111,7 +111,11 @@ func RunTLC(o TLCOpts, onJSON func(raw []byte)) (TLCStats, error) {
 			workers = 16
 		}
 	}
-	args := []string{"-XX:+UseParallelGC", "-Xss256m", "-Xmx12g", "-Djava.io.tmpdir=" + dir}
+	heap := "-Xmx12g"
+	if tier == "thorough" {
+		heap = "-Xmx24g" // the four-line run of C11 keeps ~10^7 states with whole texts in them
+	}
+	args := []string{"-XX:+UseParallelGC", "-Xss256m", heap, "-Djava.io.tmpdir=" + dir}
 	if o.DFS {
 		args = append(args, "-Dtlc2.tool.queue.IStateQueue=StateDeque")
 	}
